@@ -1,9 +1,10 @@
 import AlgoVerif.Common
 import AlgoVerif.Spec.C06
+import AlgoVerif.Generated.Consts
 /-!
 # Model of `trie/binary.go`, `trie/patricia.go`, `trie/bitstring.go`, `trie/bitpattern.go`
 
-Transcription of the Go code (after the `fix:` commits for D6, D7, D8, D9a–d).  Keys are
+Transcription of the Go code (after the `fix:` commits for D6, D7, D8, D9a–e).  Keys are
 `List UInt8` (Go strings are byte sequences); `V` is the value type, `default` is Go's zero value.
 
 * **binary trie** — `BNode` is `*binaryNode` (`nil` = the nil pointer); `Binary.root` is
@@ -16,7 +17,7 @@ Transcription of the Go code (after the `fix:` commits for D6, D7, D8, D9a–d).
   pointer.  Upward ("thread") links are ordinary indices, exactly as in the Go structure, so the
   store is cyclic.  Every `for`/recursion that follows links takes fuel (`nodes.size + 1` suffices
   whenever bit positions strictly increase along downward links) and returns `Outcome.diverge` when
-  it runs out; a nil or dangling dereference and `bitString.Bit(0)` (negative shift) are
+  it runs out; a nil or dangling dereference and `bitString.Bit(0)` (negative shift; unreachable) are
   `Outcome.panic`.  Removed nodes stay in the store unreferenced (garbage collection is not
   modelled).
 * **bit strings** — every `bitString` the API creates comes from `newBitString(s)`, so `len` is
@@ -310,15 +311,21 @@ namespace BitString
 
 def len (b : BitString) : Nat := 8 * b.length
 
+/-- `const lenPos = 1 << 30` (regenerated from the source): positions above it are the length positions —
+the bit at `lenPos + i` is set iff the bitstring has at least `i` bytes -/
+def lenPos : Nat := AlgoVerif.Generated.trie_lenPos
+
 /-- `Bit(pos)` (positions start from one)
 ```go
+if pos > lenPos { return pos-lenPos <= len(b.bits) }
 if pos > b.len { return false }
 i := pos - 1
 var mask byte = 0x80 >> (i % 8)      // pos = 0: negative shift amount, panics
 return b.bits[i/8]&mask != 0
 ``` -/
 def bit (b : BitString) (pos : Nat) : Outcome Bool :=
-  if pos > b.len then .ok false
+  if pos > lenPos then .ok (decide (pos - lenPos ≤ b.length))
+  else if pos > b.len then .ok false
   else if pos = 0 then .panic
   else
     match b[(pos - 1) / 8]? with
@@ -340,7 +347,7 @@ def diffPosZero : List UInt8 → Nat → Nat
 /-- the scanning loop of `DiffPos`; `i` counts the bytes consumed.
 ```go
 for x == y {
-    if i >= len(b.bits) && i >= len(c.bits) { return 0 }
+    if i >= len(b.bits) && i >= len(c.bits) { return 0 /* or a length position, see `diffPos` */ }
     x = b.bits[i] or 0; y = c.bits[i] or 0; i++
 }
 for xor := x ^ y; xor != 0; xor >>= 1 { j++ }
@@ -352,8 +359,16 @@ def diffPosFrom : List UInt8 → List UInt8 → Nat → Nat
   | x :: xs, y :: ys, i =>
     if x == y then diffPosFrom xs ys (i + 1) else (i + 1) * 8 - bitLen (x ^^^ y) + 1
 
-/-- `DiffPos`: position of the leftmost differing bit of the zero-padded strings, 0 if none -/
-def diffPos (b c : BitString) : Nat := diffPosFrom b c 0
+/-- `DiffPos`: position of the leftmost differing bit of the zero-padded strings; if there is none (the loop
+has consumed both strings): the first length position at which they differ, 0 for equal lengths
+```go
+if i >= len(b.bits) && i >= len(c.bits) {
+    if len(b.bits) != len(c.bits) { return lenPos + min(len(b.bits), len(c.bits)) + 1 }
+    return 0
+}
+``` -/
+def diffPos (b c : BitString) : Nat :=
+  if diffPosFrom b c 0 = 0 ∧ b.length ≠ c.length then lenPos + min b.length c.length + 1 else diffPosFrom b c 0
 
 /-- `Equal`: same `len` and same bytes -/
 def equal (b c : BitString) : Bool := b.length == c.length && b == c
@@ -367,13 +382,15 @@ def hasPrefix : BitString → BitString → Bool
 
 /-- `bitPattern.Bit(pos)`: `'0'`, `'1'` or `'*'` (returned as that byte)
 ```go
+if pos > lenPos { if pos-lenPos <= len(b.bits) { return '1' }; return '0' }
 if pos > b.len { return '0' }
 i := pos - 1; var mask byte = 0x80 >> (i % 8)
 if b.bits[i/8] == '*' { return '*' }
 if b.bits[i/8]&mask == 0 { return '0' } else { return '1' }
 ``` -/
 def patBit (b : BitString) (pos : Nat) : Outcome UInt8 :=
-  if pos > b.len then .ok 48
+  if pos > lenPos then .ok (if pos - lenPos ≤ b.length then 49 else 48)
+  else if pos > b.len then .ok 48
   else if pos = 0 then .panic
   else
     match b[(pos - 1) / 8]? with
